@@ -42,6 +42,7 @@ const vid = 7
 type recorder struct {
 	mu  sync.Mutex
 	seq int
+	gen int // round number: a handler released after its round ended must not touch the next round's log
 	log []call
 }
 type call struct {
@@ -66,20 +67,23 @@ type serverSet struct {
 	rec     *recorder
 }
 
-func (f *fakeVS) begin(rpc byte) int {
+func (f *fakeVS) begin(rpc byte) [2]int {
 	r := f.set.rec
 	r.mu.Lock()
 	defer r.mu.Unlock()
 	r.seq++
 	r.log = append(r.log, call{server: f.idx, rpc: rpc, start: r.seq})
-	return len(r.log) - 1
+	return [2]int{r.gen, len(r.log) - 1}
 }
-func (f *fakeVS) finish(k int) {
+func (f *fakeVS) finish(k [2]int) {
 	r := f.set.rec
 	r.mu.Lock()
 	defer r.mu.Unlock()
+	if k[0] != r.gen || k[1] >= len(r.log) {
+		return
+	}
 	r.seq++
-	r.log[k].end = r.seq
+	r.log[k[1]].end = r.seq
 }
 
 var errScripted = errors.New("scripted failure")
@@ -219,6 +223,7 @@ func round(ss *serverSet, args []string) []string {
 	ss.rec.mu.Lock()
 	ss.rec.log = nil
 	ss.rec.seq = 0
+	ss.rec.gen++
 	ss.rec.mu.Unlock()
 
 	topo := topology.NewTopology("topo", sequence.NewMemorySequencer(), volumeSizeLimit, 5, false)
